@@ -164,7 +164,7 @@ func (l *litCtx) lit(term string, t types.Type, depth int) (string, bool) {
 	case *types.Pointer:
 		isnil, _ := l.get(fmt.Sprintf("(= %s lnil)", term))
 		if isnil == "true" {
-			return "nil", true
+			return fmt.Sprintf("(%s)(nil)", l.typeName(t)), true
 		}
 		st, ok := u.Elem().Underlying().(*types.Struct)
 		if !ok {
